@@ -82,7 +82,7 @@ def initial_blob(name):
         return _BLOBS[name]
     if name == "default":
         b = F.read_bytes(F.DEFAULT_PPTX)
-    elif name in ("non_contiguous", "out_of_order", "names_1_5_3"):
+    elif name in ("non_contiguous", "out_of_order", "names_1_5_3", "twelve_last_first"):
         b = prs_ops.initial_blob(name)     # slide part names slide3, slide7 / names out of presentation order
     elif name == "ten_each":
         b = prs_ops.initial_blob("ten_each")   # 10 charts, 10 workbooks, 10 notes slides; a gap in slide 1's relationship ids
@@ -109,10 +109,10 @@ def initial_blob(name):
     return b
 
 
-INITS = ["%s/s256" % p for p in SHAPE_POPS] + ["contig/%s" % s for s in SLIDE_POPS if s != "s256"] + ["default", "rich", "non_contiguous", "out_of_order", "names_1_5_3", "ten_each"]
+INITS = ["%s/s256" % p for p in SHAPE_POPS] + ["contig/%s" % s for s in SLIDE_POPS if s != "s256"] + ["default", "rich", "non_contiguous", "out_of_order", "names_1_5_3", "ten_each", "twelve_last_first"]
 
 
-MID_INITS = ["contig/s256", "gap1/s256", "huge32/s256", "guid/s256", "dup/s256", "lead0/s256", "contig/smax", "contig/sdup", "default", "rich", "non_contiguous", "out_of_order", "names_1_5_3", "ten_each"]
+MID_INITS = ["contig/s256", "gap1/s256", "huge32/s256", "guid/s256", "dup/s256", "lead0/s256", "contig/smax", "contig/sdup", "default", "rich", "non_contiguous", "out_of_order", "names_1_5_3", "ten_each", "twelve_last_first"]
 SUB_INITS = ["gap1/s256", "huge32/s256", "guid/s256", "dup/s256", "contig/smax", "default"]
 
 
